@@ -190,6 +190,53 @@ def r3_property_stripping(chk: Check) -> None:
     chk.expect(phas("del $s['properties'][$n]", rp.node) and phas("$r.remove($n)", rp.node) and phas("forbid_properties($s, $f)", rp.node), "C01.R3", rp, "stripped properties are removed, un-required and forbidden", "shape not recognised", rp.loc())
 
 
+def r3b_mode_selection(chk: Check) -> None:
+    chk.rule("C01.R3b", "WHO-MAY-SELECT(response mode of the conversion): `is_response_schema` decides WHICH of readOnly / writeOnly is stripped (R3); it is passed as true only where a RESPONSE is validated (the confirmed sites), forwarded unchanged by the converter's own wrappers, and left at its default everywhere a schema is prepared for GENERATION - a request-side call site in response mode sends readOnly properties and forbids required writeOnly ones", floor=5)
+    P = chk.project
+    RESPONSE_SIDE = {
+        "specs/openapi/schemas.py:BaseOpenAPISchema._validating_response": "resolver used by validate_response",
+        "specs/openapi/schemas.py:SwaggerV20.get_response_schema": "schema a response is validated against",
+        "specs/openapi/schemas.py:OpenApi30.get_response_schema": "schema a response is validated against",
+    }
+    POSITIONAL = {"to_json_schema_recursive": 2}  # index of is_response_schema in the signature
+    sig = P.func(f"{CONV}:to_json_schema_recursive")
+    names = [a.arg for a in sig.node.args.args]
+    if "is_response_schema" not in names:
+        chk.undecided("C01.R3b", sig, "signature of to_json_schema_recursive", "parameter is_response_schema not found", sig.loc())
+        return
+    POSITIONAL["to_json_schema_recursive"] = names.index("is_response_schema")
+    n = 0
+    for mod in P.modules.values():
+        for fn in mod.functions.values():
+            for c in body_calls(fn):
+                val = next((k.value for k in c.keywords if k.arg == "is_response_schema"), None)
+                callee = last_attr(c)
+                if val is None and callee in POSITIONAL and len(c.args) > POSITIONAL[callee] and not any(isinstance(a, ast.Starred) for a in c.args):
+                    val = c.args[POSITIONAL[callee]]
+                if val is None:
+                    continue
+                n += 1
+                ref = fn.qualname
+                construct = f"{fn.qualname.partition(':')[2]}: {callee}(is_response_schema={unparse(val)})"
+                text = unparse(val)
+                if isinstance(val, ast.Constant) and not val.value:
+                    chk.ok("C01.R3b", fn, construct, "request mode", fn.loc(c))
+                elif text in ("is_response_schema", "self.is_response_schema") and (text.startswith("self.") or "is_response_schema" in params_of(fn.node)):
+                    chk.ok("C01.R3b", fn, construct, "forwards its own mode", fn.loc(c))
+                elif ref in RESPONSE_SIDE:
+                    chk.ok("C01.R3b", fn, construct, RESPONSE_SIDE[ref], fn.loc(c))
+                elif isinstance(val, ast.Constant):
+                    chk.violation("C01.R3b", fn, construct,
+                                  "a schema that is not a response schema is converted in RESPONSE mode: writeOnly properties are stripped and forbidden, readOnly ones stay - generated requests carry readOnly properties and lack required writeOnly ones",
+                                  fn.loc(c))
+                else:
+                    chk.undecided("C01.R3b", fn, construct, "mode is computed; not one of the confirmed response-side sites", fn.loc(c))
+    for ref in RESPONSE_SIDE:
+        P.func(ref)
+    if n < 5:
+        chk.undecided("C01.R3b", "<discovery>", f"sites={n}", "fewer mode-selecting call sites than confirmed by hand")
+
+
 def r4_path_location(chk: Check) -> None:
     chk.rule("C01.R4", "DOMINATED(path location => all required, non-empty): for path parameters every property is required and strings get minLength >= 1", floor=2)
     P = chk.project
@@ -370,4 +417,4 @@ def r8_forbid_each(chk: Check) -> None:
 
 
 def rules(tier: str) -> list:  # type: ignore[type-arg]
-    return [r1_generator_plumbing, r2_length_keywords, r2b_width_checked, r3_property_stripping, r4_path_location, r5_filters_only_narrow, r6_token_kinds_agree, r7_traversal_order, rfwd_forwarding, r8_forbid_each]
+    return [r1_generator_plumbing, r2_length_keywords, r2b_width_checked, r3_property_stripping, r3b_mode_selection, r4_path_location, r5_filters_only_narrow, r6_token_kinds_agree, r7_traversal_order, rfwd_forwarding, r8_forbid_each]
